@@ -30,6 +30,28 @@
 (*                                                                         *)
 (* The assignment (paths with outcomes, scripted solver replies, flags) is *)
 (* chosen by the Setup actions, so one TLC run covers all assignments.     *)
+(*                                                                         *)
+(* History: until /repo a19e257 and 78a52f5 the code deviated from the     *)
+(* property in two ways, kept here as MUTANTS of the model that TLC must   *)
+(* refute (MC_Verdict_m_*.cfg, expected violations):                       *)
+(*  MutPrecedence  `unknown` tested before `stuck` in the table:           *)
+(*      panic(unknown), stuck(unknown) -> TIMEOUT(2), required ERROR       *)
+(*  MutNoCatch     the ShutdownError of the synchronous confirmation query *)
+(*      of a stuck path escapes run_test: panic(sat_valid), stuck with     *)
+(*      --early-exit gives FAIL or EXCEPTION(5) depending on the order     *)
+(* On the faithful model (both FALSE) VerdictIsPrecedence,                 *)
+(* OrderIndependence and NoLostCounterexampleStrict hold, under            *)
+(* KilledMayRaise = FALSE.  KilledMayRaise = TRUE adds the one residual    *)
+(* behaviour of the code that is not forced by the harness: a confirmation *)
+(* query IN FLIGHT when the early-exit shutdown cancels it may surface as  *)
+(* an OSError (EBADF) out of future.result(), which is not a ShutdownError *)
+(* and still escapes run_test (MC_Verdict_r_killedraise.cfg exhibits it).  *)
+(* UNCONSTRAINED: a spawn failure (Popen raising) is not among the         *)
+(* property's solver replies: it is modelled for potential-violation       *)
+(* queries (-> err), never scripted for confirmation queries, and any      *)
+(* non-PASS verdict is acceptable for such an assignment.  "No path        *)
+(* succeeded" has no label in the property: with a timeout as the only     *)
+(* other defect ERROR and TIMEOUT are both acceptable.                     *)
 (***************************************************************************)
 EXTENDS Integers, Sequences, FiniteSets, TLC, Json
 
@@ -47,8 +69,11 @@ CONSTANTS
     PrevCodes,       \* their possible results: exit codes 0..5, or 9 (selected, but no result: setUp failed)
     RecordHist,      \* TRUE: keep the event history and print one JSON record per behaviour
     Canon,           \* TRUE: only the sequential schedule (each query runs to completion when submitted)
-    Coarse           \* TRUE: a pool thread runs from the end of its solver process to the end of its callback
+    Coarse,          \* TRUE: a pool thread runs from the end of its solver process to the end of its callback
                      \*       without interleaving (fewer schedules for scenario generation)
+    MutPrecedence,   \* mutant (code before 78a52f5): TIMEOUT tested before stuck paths
+    MutNoCatch,      \* mutant (code before a19e257): ShutdownError of the confirmation query escapes run_test
+    KilledMayRaise   \* a confirmation query cancelled in flight may raise OSError out of run_test (not forced)
 
 ViolKinds  == {"panic", "failflag"}
 SatKinds   == {"sat_valid", "sat_abstract"}
@@ -58,7 +83,7 @@ ErrKinds   == {"garbage", "empty", "nonzero", "crash", "spawnfail"}
 AllKinds   == SatKinds \cup UnsatKinds \cup ToKinds \cup ErrKinds
 
 ASSUME /\ Replies \subseteq AllKinds /\ Replies2 \subseteq AllKinds \ {"unsat_shared"}
-       /\ StuckReplies \subseteq AllKinds \ {"unsat_shared"}
+       /\ StuckReplies \subseteq AllKinds \ {"unsat_shared", "spawnfail"}
        /\ Outcomes \subseteq {"success", "revert", "stuck"} \cup ViolKinds
        /\ MinPaths \in 1..MaxPaths /\ Threads \in Nat \ {0}
 
@@ -173,7 +198,10 @@ Submit ==
 StuckSubmit ==
     /\ lock = 0
     /\ mpc = "classify" /\ arms[i].o = "stuck"
-    /\ IF shutdown THEN /\ mpc' = "raised" /\ raised' = TRUE /\ Log(Ev("K", i, "shutdown"))
+    /\ IF shutdown THEN
+            \* executor.submit raises ShutdownError: `except ShutdownError: break` (since a19e257)
+            IF MutNoCatch THEN /\ mpc' = "raised" /\ raised' = TRUE /\ Log(Ev("K", i, "shutdown"))
+            ELSE /\ mpc' = "join" /\ raised' = raised /\ Log(Ev("K", i, "shutdown"))
        ELSE IF arms[i].r = "spawnfail" THEN /\ mpc' = "raised" /\ raised' = TRUE /\ Log(Ev("K", i, "spawnfail"))
        ELSE /\ mpc' = "stuckwait" /\ raised' = raised /\ Log(Ev("K", i, "run"))
     /\ UNCHANGED <<arms, fl, prev, i, qs, shutdown, sharedcore, outputs, normal, stuck, code, pexit, lock>>
@@ -190,7 +218,7 @@ StuckFinish ==
           /\ stuck' = stuck \cup {i}
           /\ i' = i + 1 /\ mpc' = "loop" /\ raised' = raised
           /\ Log(Ev("SF", i, "killed"))
-       \/ /\ shutdown
+       \/ /\ shutdown /\ KilledMayRaise
           /\ stuck' = stuck /\ i' = i /\ mpc' = "raised" /\ raised' = TRUE
           /\ Log(Ev("SF", i, "killed-raise"))
     /\ UNCHANGED <<arms, fl, prev, qs, shutdown, sharedcore, outputs, normal, code, pexit, lock>>
@@ -208,8 +236,9 @@ Count(r) == Cardinality({k \in 1..Len(outputs) : outputs[k].r = r})
 CodeOf(nsat, nerr, nunk, nstuck, nnormal) ==
     IF nsat > 0 THEN 1
     ELSE IF nerr > 0 THEN 5
-    ELSE IF nunk > 0 THEN 2
+    ELSE IF MutPrecedence /\ nunk > 0 THEN 2
     ELSE IF nstuck > 0 THEN 3
+    ELSE IF nunk > 0 THEN 2
     ELSE IF nnormal = 0 THEN 4
     ELSE 0
 
@@ -317,6 +346,7 @@ Required(as) ==
 \* "no path succeeded" is not given a label by the property text: when it is the only reason for ERROR and
 \* some query timed out, TIMEOUT is accepted as well
 Acceptable(as) ==
+    (IF \E j \in 1..Len(as) : as[j].o = "stuck" /\ as[j].r = "spawnfail" THEN {"FAIL", "ERROR", "TIMEOUT"} ELSE {}) \cup
     {Required(as)} \cup
     (IF /\ Required(as) = "ERROR" /\ StuckKept(as) = {}
         /\ ~\E j \in QPaths(as) : QClass(as[j]) = "fail"
@@ -411,28 +441,18 @@ PassOnlyIfClean == (Done /\ code = 0) => Required(arms) = "PASS"
 \* conversely a clean assignment passes (sanity: the model is not vacuously failing everything)
 CleanPasses == (Done /\ Required(arms) = "PASS") => code = 0
 
-\* strict reading of the precedence FAIL > ERROR > TIMEOUT
-VerdictIsPrecedence == Done => ClassOf(code) = Required(arms)
-VerdictIsPrecedenceLenient == Done => ClassOf(code) \in Acceptable(arms)
+\* the precedence FAIL > ERROR > TIMEOUT (with the two acceptable sets of the unlabelled / unconstrained cases)
+VerdictIsPrecedence == Done => ClassOf(code) \in Acceptable(arms)
+\* fully literal reading (violated only by: no path succeeded + a timeout -> TIMEOUT, which the text does not label)
+VerdictIsPrecedenceStrict == Done => ClassOf(code) = Required(arms)
 
-\* the deviations of the code from the required table that are known (reported as findings):
-\*  - TIMEOUT is tested before stuck paths: a stuck path (ERROR) is reported as TIMEOUT
-\*  - an exception of the synchronous confirmation query of a stuck path escapes run_test and replaces
-\*    the verdict (also FAIL) by EXCEPTION
-DevTimeoutOverStuck ==
-    /\ code = 2 /\ Required(arms) = "ERROR" /\ stuck # {}
-    /\ Count("err") = 0 /\ Count("sat") = 0
-DevRaisedMasksFail == raised /\ code = 5 /\ Required(arms) = "FAIL"
-VerdictModuloKnown ==
-    Done => \/ ClassOf(code) \in Acceptable(arms)
-            \/ DevTimeoutOverStuck
-            \/ DevRaisedMasksFail
+\* the one residual behaviour that is modelled but not forced: see KilledMayRaise
+DevKilledRaise == KilledMayRaise /\ raised /\ fl.early /\ shutdown /\ code = 5
+VerdictModuloKnown == Done => (ClassOf(code) \in Acceptable(arms) \/ DevKilledRaise)
 
 \* the verdict is a function of the assignment: every schedule agrees with the sequential one
 OrderIndependence == Done => ClassOf(code) = ClassOf(SeqCode)
-\* ... except for the early-exit race with a stuck path's confirmation query
-DevEarlyExitStuckRace == raised /\ fl.early /\ code = 5 /\ SeqCode = 1
-OrderIndependenceModuloKnown == Done => (ClassOf(code) = ClassOf(SeqCode) \/ DevEarlyExitStuckRace)
+OrderIndependenceModuloKnown == Done => (ClassOf(code) = ClassOf(SeqCode) \/ DevKilledRaise)
 \* without --early-exit nothing depends on the schedule, not even the ERROR kind
 OrderIndependenceNoEarly == (Done /\ ~fl.early) => code = SeqCode
 
